@@ -70,7 +70,7 @@ def layout(ctx, thorough):
     res = ctx.go_driver("./c20", "TestLayoutReplay", {"dump": dump, "random": 0, "workers": GO_WORKERS},
                         name="layout_corrupt", timeout=900)
     info = fold(ctx, res, "layout_MC_LayoutCorrupt.cfg", "[Dns64Layout corrupt] ", {"states": r.distinct})
-    need(info["counters"].get("corrupted_cases", 0) > 100, "no corrupted-name cases were replayed")
+    need(info["counters"].get("corrupted_cases", 0) > 500, "no corrupted-name cases were replayed")
     os.remove(dump)
     if thorough:
         # the full 5-value alphabet for prefix (period 3) and address: model proof only
@@ -96,7 +96,7 @@ def decide(ctx, thorough):
         need(c.get(k, 0) > 0, "decision replay never observed outcome %s (%s)" % (k, c))
     need(c.get("dump_done", 0) > 10000, "decision table has only %s rows" % c.get("dump_done"))
     os.remove(dump)
-    if True:
+    if thorough:
         rp = ctx.tlc("Dns64", spec, "MC_Decide%s_asbuilt_props.cfg" % tier, workers=WORKERS, timeout=1200, heap="8g",
                      must_pass=False, tag="as-built table vs NeverAD/TtlMin (expected to fail on the model)", count=False)
         ctx.cov["replay"]["decide_asbuilt_model_invariant"] = {"violated_on_model": rp.violated}
